@@ -171,7 +171,42 @@ func GenGenesis(t *rapid.T, prof *Profile) GenesisSpec {
 	if prof.PrefixIDs {
 		prefixPct = 66
 	}
-	if draw("g.prefixids", 100) < prefixPct {
+	if prof.PopulatedPct > 0 && draw("g.populated", 100) >= 100-prof.PopulatedPct {
+		// a populated registry: more classes, projects of one class, issuers of one class and allowed
+		// creators than a default page (100) holds
+		n := 101 + draw("g.populated.n", 15)
+		classes := []interface{}{n}
+		var issuers, creators []map[string]interface{}
+		for i := 1; i <= n; i++ {
+			classes = append(classes, map[string]interface{}{"key": fmt.Sprint(i), "id": fmt.Sprintf("C%02d", i), "admin": b64(accts[i%len(accts)]), "credit_type_abbrev": "C", "metadata": fmt.Sprintf("class %d", i)})
+			issuers = append(issuers, map[string]interface{}{"class_key": fmt.Sprint(i), "issuer": b64(accts[i%len(accts)])})
+		}
+		for i := 0; i < n; i++ {
+			a := make([]byte, 20)
+			for j := range a {
+				a[j] = 0x88
+			}
+			a[18], a[19] = byte(i>>8), byte(i)
+			issuers = append(issuers, map[string]interface{}{"class_key": "1", "issuer": b64(a)})
+			creators = append(creators, map[string]interface{}{"address": b64(a)})
+		}
+		for _, a := range accts[:4] {
+			issuers = append(issuers, map[string]interface{}{"class_key": "2", "issuer": b64(a)})
+			creators = append(creators, map[string]interface{}{"address": b64(a)})
+		}
+		doc["regen.ecocredit.v1.Class"] = mustJSON(classes)
+		doc["regen.ecocredit.v1.ClassIssuer"] = mustJSON(issuers)
+		doc["regen.ecocredit.v1.AllowedClassCreator"] = mustJSON(creators)
+		doc["regen.ecocredit.v1.ClassSequence"] = mustJSON([]map[string]interface{}{{"credit_type_abbrev": "C", "next_sequence": fmt.Sprint(n + 1)}})
+		m := 101 + draw("g.populated.m", 15)
+		projects := []interface{}{m}
+		for i := 1; i <= m; i++ {
+			projects = append(projects, map[string]interface{}{"key": fmt.Sprint(i), "id": fmt.Sprintf("C01-%03d", i), "admin": b64(accts[(i/3)%len(accts)]), "class_key": "1", "jurisdiction": "US", "reference_id": []string{"", "VCS-001", "VCS-002"}[i%3]})
+		}
+		doc["regen.ecocredit.v1.Project"] = mustJSON(projects)
+		doc["regen.ecocredit.v1.ProjectSequence"] = mustJSON([]map[string]interface{}{{"class_key": "1", "next_sequence": fmt.Sprint(m + 1)}})
+		g.Notes = append(g.Notes, fmt.Sprintf("populated{classes=%d projects-of-C01=%d issuers-of-C01=%d creators=%d}", n, m, n+1, n+4))
+	} else if draw("g.prefixids", 100) < prefixPct {
 		classes := []interface{}{2,
 			map[string]interface{}{"key": "1", "id": "C10", "admin": b64(accts[0]), "credit_type_abbrev": "C"},
 			map[string]interface{}{"key": "2", "id": "C100", "admin": b64(accts[1]), "credit_type_abbrev": "C", "metadata": "m"},
